@@ -1446,7 +1446,13 @@ void describeAnam(const ASerializable* o, Desc& d)
     d.I("nbpoly", h->getNbPoly());
     d.D("rcoef", h->getRCoef());
     d.I("flagbound", h->getFlagBound());
-    d.VD("psi", h->getPsiHns());
+    {
+      // the defining parameters are the point coefficients and r (getPsiHns() returns their product psi[n] * r^n, whose
+      // 15th digit depends on both roundings): read on a copy brought back to r = 1
+      AnamHermite raw(*h);
+      raw.setRCoef(1.);
+      d.VD("psi", raw.getPsiHns());
+    }
   }
   if (const AnamEmpirical* e = dynamic_cast<const AnamEmpirical*>(o))
   {
@@ -1513,8 +1519,10 @@ void probeAnam(ASerializable* o, Desc& d)
   std::string why = consistentAnam(o);
   d.S("consistent", why);
   if (!why.empty()) return;
-  static const VectorDouble ZV = {0.05, 0.4, 0.9, 1.3, 2., 3.5, 7.};
-  static const VectorDouble YV = {-2.5, -1., -0.2, 0., 0.6, 1.4, 2.8};
+  // probe points off the 0.1 lattice on which the fitted bounds of the Gaussian scale fall (a transform is not
+  // continuous at its bounds: evaluated exactly there, a bound rounded at its 15th digit flips the answer)
+  static const VectorDouble ZV = {0.0513, 0.417, 0.913, 1.317, 2.03, 3.517, 7.03};
+  static const VectorDouble YV = {-2.537, -1.013, -0.217, 0.0131, 0.613, 1.417, 2.771};
   if (a->hasGaussian())
   {
     const AnamHermite* h = dynamic_cast<const AnamHermite*>(o);
